@@ -285,11 +285,11 @@ def clauses(tier):
             "deltas", check_deltas,
             "non-trivial = non-empty tensor, num_deltas >= 1 and (ndim >= 3 or negative axis or negative target_axis)",
             deltas_cases, quick=3000, thorough=90000,
-        ),
+         fuzz_runs=2500),
         Clause(
             "stack", check_stack,
             "non-trivial = non-empty tensor, num_vectors >= 2 and (ndim >= 3 or a negative axis argument or an "
             "incomplete final run); 2-D inputs are also re-run through the N-D path as (T,F,1)",
             stack_cases, quick=3000, thorough=90000,
-        ),
+         fuzz_runs=2500),
     ]
